@@ -79,7 +79,7 @@ Definition mbr_init (limit : Z) (body : list A) (script : list nat) (eofd : bool
 
 (* maxBytesReader.Read with the arithmetic Go performs: l.n+1 and l.n-n are int64 operations
    that wrap, p[:l.n+1] panics for a negative bound, and `n = int(l.n)` is returned as is
-   (a negative count when l.n < 0).  The guard is `int64(len(p))-1 > l.n` as in net/http (ec3b610;
+   (a negative count when l.n < 0).  The guard is `int64(len(p))-1 > l.n` as in net/http (fb48e01;
    before, `int64(len(p)) > l.n+1`, whose right-hand side wraps for l.n = 2^63-1): len(p) is a Go
    int, 0 < len(p) < 2^63 here, so the left-hand side cannot wrap. *)
 Definition mbr_read64 (s : mbr) (m : nat) : r64 (list A * option rerr * mbr) :=
@@ -258,7 +258,7 @@ Definition has_suffix (s suf : bytes) : bool :=
 Definition units : list (bytes * Z) :=
   [(bs "KB"%string, 1024); (bs "MB"%string, 1048576); (bs "GB"%string, 1073741824); (bs "B"%string, 1); ([], 1)].
 (* `if size < 0 || size > math.MaxInt64/unit.multiplier { return -1 }; return size * unit.multiplier`:
-   the int64 product is only formed when it fits (b9c6637; before, the wrapped product was returned) *)
+   the int64 product is only formed when it fits (0d07837; before, the wrapped product was returned) *)
 Definition size_times (n mult : Z) : Z :=
   if (n <? 0) || (n >? max_int64 / mult) then -1 else wrap64 (n * mult).
 Fixpoint parse_size_units (s : bytes) (us : list (bytes * Z)) : Z :=
@@ -317,13 +317,13 @@ Definition limits_form_result (form : N) (s : bytes) : option (option Z * option
 (* ---- client-visible status of the handlers that read the body ---- *)
 Inductive consumer := ProxyStream | ProxyBuffered | Fastcgi.
 (* what the body's consumer makes of the error its reads ended with: proxy.ServeHTTP recognises
-   ErrMaxBytesExceeded in the RoundTrip error with errors.Is (casket bdcc677; before, by ==), so
+   ErrMaxBytesExceeded in the RoundTrip error with errors.Is (casket 2f5115a; before, by ==), so
    however net/http hands the body error back (unchanged for a chunked upload, wrapped in a
    *net.OpError ("readfrom") when the request has a Content-Length) the answer is 413;
    with several upstreams and try_duration the body is buffered first: the too-large error of
-   newBufferedBody answers 413 (casket c877bef; before, 400 like any other read error);
+   newBufferedBody answers 413 (casket a49e1c0; before, 400 like any other read error);
    fastcgi's client gives up when the body cannot be read to its end and Handler.ServeHTTP maps
-   ErrMaxBytesExceeded to 413 (casket e7d21d5; before, Do ignored the error of io.Copy(stdin, body),
+   ErrMaxBytesExceeded to 413 (casket 34218d7; before, Do ignored the error of io.Copy(stdin, body),
    ended the stream and relayed the responder's answer to the truncated body) *)
 Definition consumer_status (k : consumer) (cl_framed : bool) (e : option rerr) (backend_status : Z) : Z :=
   match e with
